@@ -74,7 +74,22 @@ pub fn lie_len(rng: &mut Prng, truth: usize, max: usize, lie: Lie) -> (usize, bo
     (v, v == truth)
 }
 
+static SMALL: std::sync::atomic::AtomicBool = std::sync::atomic::AtomicBool::new(false);
+
+/// small payloads only (Miri / valgrind flavours: rendering large payloads dominates their cost)
+pub fn set_small(v: bool) {
+    SMALL.store(v, std::sync::atomic::Ordering::Relaxed);
+}
+
 fn payload_len(rng: &mut Prng) -> usize {
+    if SMALL.load(std::sync::atomic::Ordering::Relaxed) {
+        return match rng.below(8) {
+            0 => 0,
+            1 => 1,
+            2..=5 => rng.range(0, 12) as usize,
+            _ => rng.range(0, 28) as usize,
+        };
+    }
     match rng.below(16) {
         0 => 0,
         1 => 1,
